@@ -256,6 +256,13 @@ def pred_true_set(ctx, fn, cs, depth=0, c_param=1):
 def _unit_ok(fb, body, st):
     """`Ok(())` of a looked-through step such as `check_length(s)?` is not a verdict on the string"""
     try:
+        pl0 = st.get("place")
+        if pl0 is not None and not pl0["p"]:
+            # `Ok(v)` of an intermediate step whose payload is not the string type (the checked
+            # length that `.ok_or(..)?` hands on, say): a Result<u8, _> cannot be the verdict
+            t0 = body.local_ty(pl0["l"])
+            if t0 is not None and t0.k == "adt" and t0.path == "std::result::Result" and t0.targs() and t0.targs()[0].s in ("u8", "usize", "u16", "u32", "u64", "()"):
+                return True
         ops = st["rv"].get("ops", [])
         if len(ops) != 1:
             return False
@@ -370,7 +377,7 @@ def check_bulk(ctx, rep, INNER_FN, se, pr):
         for s_ in body.blocks[bi]["stmts"]:
             if s_["k"] == "assign" and s_["rv"]["k"] == "aggregate" and s_["rv"].get("ak") == "adt":
                 pth, vn = s_["rv"]["path"], s_["rv"]["vname"]
-                if pth == "std::result::Result" and vn == "Ok" and not _unit_ok(fb, body, s):
+                if pth == "std::result::Result" and vn == "Ok" and not _unit_ok(fb, body, s_):
                     bad.append("Ok")
                 if pth == "error::NormalizedStringError" and vn != "StringTooLong":
                     bad.append(vn)
